@@ -2,6 +2,7 @@ package stickycookie
 
 import (
 	"net/url"
+	"strings"
 )
 
 // RawValue is a no-op that returns the raw strings as-is.
@@ -9,7 +10,8 @@ type RawValue struct{}
 
 // Get returns the raw value.
 func (v *RawValue) Get(raw *url.URL) string {
-	return raw.String()
+	// net/http drops ';' from cookie values: percent-encode it (FindURL parses the value as a URL, which decodes it again)
+	return strings.ReplaceAll(raw.String(), ";", "%3B")
 }
 
 // FindURL gets url from array that match the value.
